@@ -273,6 +273,8 @@ def judge_session(case, impl, model, spec, ctx):
             out.append(("violation", "%s: 200 with an authentication challenge" % what))
         elif status == 200 and tname == "icmp" and oc != 0:
             out.append(("violation", "%s: answered 200 although no ICMP forwarder is set up: the multiplexer is not accepted (the stream is closed right after)" % what))
+        elif status == 502 and tname == "icmp" and oc != 0 and warn != 300:
+            out.append(("violation", "%s: no ICMP forwarder is set up, the multiplexer cannot be made, and the 502 carries X-Warning %d, not the generic code 300" % (what, warn)))
         if out:
             break
         if n < len(manswers) and a[:6] != manswers[n][:6]:
